@@ -477,6 +477,60 @@ def same_shape_other_bitmap_cases():
     return out
 
 
+def assoc_width_twin_runs():
+    """[(tag, [case, case])]: the same element with an associated field of two different widths (204002 / 204004 ...), in
+    messages to be handled one after the other by one coder object, in both orders; compressed and not; the associated
+    values include the all-ones pattern of the *other* width (3 under 204004 is a value, under 204002 it is missing)."""
+    out = []
+
+    def meta(n, compressed):
+        m = dict(frame.default_meta(4))
+        m.update({'master_table_version': 33, 'n_subsets': n, 'is_compressed': compressed})
+        return m
+    for e in (12101, 20011):
+        for (w1, w2) in ((2, 4), (4, 2), (1, 3), (8, 6)):
+            for compressed in (False, True):
+                cases = []
+                for w in (w1, w2):
+                    ids = [204000 + w, 31021, e, e, 204000]
+                    top = (1 << w) - 1
+                    other = (1 << (w2 if w == w1 else w1)) - 1
+                    a = [min(other, top - 1) if top > 1 else 1, 0, 1 if top > 1 else 0]
+                    rows = [[1, a[k], 5 + k, a[(k + 1) % 3], 3 + k] for k in range(3)]
+                    if compressed:
+                        cols = [list(c) for c in zip(*rows)]
+                        cases.append(case_from_raws(meta(3, True), ids, columns=cols))
+                    else:
+                        cases.append(case_from_raws(meta(3, False), ids, subsets=rows))
+                out.append(('%06d 204%03d then 204%03d %s' % (e, w1, w2, 'compressed' if compressed else 'uncompressed'), cases))
+    return out
+
+
+def unclosed_scope_cases():
+    """[(name, Case)]: uncompressed messages of 2-3 subsets whose template ends inside an operator scope (201 / 202 / 207 / 208 /
+    204 / 203 left open to the end of the subset) and uses the same element before the operator and under it: the next
+    subset starts from the Table B definition again.  Deterministic."""
+    out = []
+
+    def meta(n, edition=4):
+        m = dict(frame.default_meta(edition))
+        m.update({'master_table_version': 33, 'n_subsets': n, 'is_compressed': False})
+        return m
+    # 012101 (16 bits, scale 2), 001015 (20 characters), 010004 (14 bits, scale -1)
+    fam = [('201', [12101, 201130, 12101], [[27315, 100000], [1, 262142], [65534, 0]]),
+           ('202', [12101, 202129, 12101, 10004], [[27315, 27316, 10132], [2, 3, 4], [65534, 65534, 16382]]),
+           ('207', [10004, 207001, 10004, 12101], [[10132, 101320, 273150], [1, 2, 3]]),
+           ('208', [1015, 208004, 1015, 12101], [[b'STATION             ', b'STAT', 27315], [b'B                   ', b'BBBB', 1]]),
+           ('204', [12101, 204003, 31021, 12101], [[27315, 1, 5, 27316], [1, 2, 7, 2], [3, 3, 0, 3]]),
+           ('203', [12101, 203012, 12101, 203255, 12101], [[27315, -1000, 30000], [27315, 100, 5], [1, 0, 1]]),
+           ('201_after_replication', [101000, 31001, 12101, 201132, 12101], [[2, 1, 2, 1048574], [0, 77], [1, 65534, 3]])]
+    for name, ids, rows in fam:
+        out.append(('unclosed_' + name, case_from_raws(meta(len(rows), 3 + len(name) % 2), ids, subsets=rows)))
+    for name, c in out:
+        c.features.add('template_ends_inside_an_operator_scope')
+    return out
+
+
 def boundary_cases(tier='quick'):
     """[(name, Case)]: hand-laid-out messages at the numeric limits of the format's own fields -- replication counts of
     255 and beyond 8 / toward 16 bits, 63 replicated descriptors, bitmaps longer than 255 bits, subset counts beyond
